@@ -7,6 +7,7 @@
 (*          expands : all names the cell pattern expands to,               *)
 (*          defined : for each of them, whether the library maps it to     *)
 (*                    this very definition,                                *)
+(*          libnames, libdefined : see SourceNamesDefined,                 *)
 (*          fam : datasheet family by NAME (classification table of the    *)
 (*                harness, trusted): "and" "nand" "or" "nor" "xor" "xnor"  *)
 (*                "buf" "inv" "ao" "aoi" "oa" "oai" "mux2" "mux4" "ha" "fa" *)
@@ -46,6 +47,9 @@ PinsMatchImpl == (a > 0) \/ (/\ PinNames(InPins) = [i \in 1..NIn |-> NameOf(I, I
                              /\ Len(R.pins) = Len(I.io)) \/ Fail("PinsMatchImpl")
 \* every name expands to a definition
 NamesDefined == (a > 0) \/ (Len(R.expands) >= 1 /\ \A i \in 1..Len(R.defined) : R.defined[i]) \/ Fail("NamesDefined")
+\* ... also the names of records that define no pins at all (fillers): libnames are the names the library's SOURCE TEXT
+\* expands to (read by the harness from techlib.py; carried by the first record of each library), libdefined their presence
+SourceNamesDefined == (a > 0) \/ (\A i \in 1..Len(R.libdefined) : R.libdefined[i]) \/ Fail("SourceNamesDefined")
 \* the pins carry the names of the vendor data book of that library variant (ein / eout: expected names, if any)
 DatasheetPinNames == (a > 0) \/ (/\ (R.hasein => PinNames(InPins) = R.ein)
                                  /\ (R.haseout => PinNames(OutPins) = R.eout)) \/ Fail("DatasheetPinNames")
